@@ -35,24 +35,23 @@ type c03Replay struct {
 // buildBoth replays a call sequence on the real API and on the model; returns an identity violation text if any.
 func buildBoth(calls []addCall) (root *gtree.Node, real []*gtree.Node, mroot *model.Node, ident string) {
 	var mnodes []*model.Node
+	mindex := map[*model.Node]int{} // model node -> its position in mnodes / real
+	kidOf := map[*model.Node]map[string]*model.Node{}
+	isReal := map[*gtree.Node]bool{}
 	for i, cl := range calls {
 		if cl.Parent < 0 {
 			root = gtree.NewRoot(cl.Name)
 			mroot = &model.Node{Name: cl.Name}
 			real = append(real, root)
+			isReal[root] = true
+			mindex[mroot] = len(mnodes)
 			mnodes = append(mnodes, mroot)
 			continue
 		}
 		mp := mnodes[cl.Parent]
-		var existing = -1
-		for _, k := range mp.Kids {
-			if k.Name == cl.Name {
-				for j, mn := range mnodes {
-					if mn == k {
-						existing = j
-					}
-				}
-			}
+		existing := -1
+		if k, ok := kidOf[mp][cl.Name]; ok {
+			existing = mindex[k]
 		}
 		got := real[cl.Parent].Add(cl.Name)
 		if existing >= 0 {
@@ -61,14 +60,18 @@ func buildBoth(calls []addCall) (root *gtree.Node, real []*gtree.Node, mroot *mo
 			}
 			continue
 		}
-		for _, r := range real {
-			if r == got && ident == "" {
-				ident = fmt.Sprintf("call %d: Add(%q) of a new name returned an already existing node", i, cl.Name)
-			}
+		if isReal[got] && ident == "" {
+			ident = fmt.Sprintf("call %d: Add(%q) of a new name returned an already existing node", i, cl.Name)
 		}
 		mk := &model.Node{Name: cl.Name}
 		mp.Kids = append(mp.Kids, mk)
+		if kidOf[mp] == nil {
+			kidOf[mp] = map[string]*model.Node{}
+		}
+		kidOf[mp][cl.Name] = mk
 		real = append(real, got)
+		isReal[got] = true
+		mindex[mk] = len(mnodes)
 		mnodes = append(mnodes, mk)
 	}
 	return
@@ -106,7 +109,7 @@ var c03Ops = []string{"text", "text-fmt1", "text-fmt5", "text-fmt2", "text-fmt7"
 
 // walking with the dry-run option (names are validated): both families must hand the same nodes to the callback
 // before they report the same error
-var c03DryWalkOps = []string{"walk-dry", "walkiter-dry", "walk-dry-massive"}
+var c03DryWalkOps = []string{"walk-dry", "walkiter-dry", "walk-dry-massive", "walk-nested", "walkiter-nested"}
 
 // an encoded output right after a call of the same kind whose writer took only half of a write (whatever the failed call
 // left behind must not show), and a massive walk whose context is cancelled from inside the callback (both families
@@ -226,8 +229,34 @@ func c03Op(op string, root *gtree.Node, doc string, alias bool) (res opResult, p
 		return nil
 	}
 	rd := func() *strings.Reader { return strings.NewReader(doc) }
+	// nested: from inside the walk (callback or loop body, at the first node) the same tree is written and walked again
+	// through the same family: the inner calls are calls like any other and give what they give outside a walk
+	nested := strings.HasSuffix(op, "-nested")
+	op = strings.TrimSuffix(op, "-nested")
+	inner := func() {
+		if root != nil {
+			fmt.Fprintf(&buf, "[inner err=%v]", gtree.OutputFromRoot(&buf, root))
+			n := 0
+			e := gtree.WalkFromRoot(root, func(*gtree.WalkerNode) error { n++; return nil })
+			fmt.Fprintf(&buf, "[inner walk %d err=%v]", n, e)
+		} else {
+			fmt.Fprintf(&buf, "[inner err=%v]", gtree.OutputFromMarkdown(&buf, strings.NewReader(doc)))
+			n := 0
+			e := gtree.WalkFromMarkdown(strings.NewReader(doc), func(*gtree.WalkerNode) error { n++; return nil })
+			fmt.Fprintf(&buf, "[inner walk %d err=%v]", n, e)
+		}
+	}
+	if nested {
+		plain := cb
+		cb = func(wn *gtree.WalkerNode) error {
+			if len(rows) == 0 {
+				inner()
+			}
+			return plain(wn)
+		}
+	}
 	run := func(f func()) {
-		if !massive {
+		if !massive && !nested {
 			pan = sut.Guard(f)
 			return
 		}
@@ -243,7 +272,7 @@ func c03Op(op string, root *gtree.Node, doc string, alias bool) (res opResult, p
 		case pan = <-done:
 		case <-time.After(60 * time.Second):
 			massiveHung = true
-			pan = "massive From-Root call did not return within 60 s"
+			pan = "call (massive, or with calls nested in the walk) did not return within 60 s"
 		}
 	}
 	run(func() {
@@ -288,6 +317,9 @@ func c03Op(op string, root *gtree.Node, doc string, alias bool) (res opResult, p
 					if e != nil {
 						err = e
 						break
+					}
+					if nested && len(rows) == 0 {
+						inner()
 					}
 					rows = append(rows, sut.FromWalker(wn))
 					kept = append(kept, wn)
@@ -388,6 +420,48 @@ func sortStrings(a []string) {
 	}
 }
 
+// c03OnlyOps, when set, replaces the operation list of c03Sequence (the size sweep runs big trees through a few
+// operations each instead of through all of them).
+var c03OnlyOps []string
+
+// shapeCalls turns a one-root depth sequence into the NewRoot / Add calls that build it (a name written again under the
+// same parent is an Add of an existing name).
+func shapeCalls(d []int, names []string) []addCall {
+	var calls []addCall
+	type ent struct {
+		idx  int
+		kids map[string]int
+	}
+	var path []*ent // open node per level
+	n := 0
+	for i := range d {
+		if d[i] == 1 {
+			if i > 0 {
+				return nil
+			}
+			calls = append(calls, addCall{-1, names[i]})
+			path = []*ent{{0, map[string]int{}}}
+			n = 1
+			continue
+		}
+		par := path[d[i]-2]
+		path = path[:d[i]-1]
+		if j, ok := par.kids[names[i]]; ok {
+			calls = append(calls, addCall{par.idx, names[i]})
+			path = append(path, &ent{j, nil})
+			// (the shapes of the sweep never descend below a re-written child's old children by name, so an empty map would
+			// be wrong only if they did; keep the old map out of reach on purpose)
+			path[len(path)-1].kids = map[string]int{}
+			continue
+		}
+		calls = append(calls, addCall{par.idx, names[i]})
+		par.kids[names[i]] = n
+		path = append(path, &ent{n, map[string]int{}})
+		n++
+	}
+	return calls
+}
+
 func c03Sequence(c *rep.Ctx, calls []addCall, withFS bool) {
 	root, real, mroot, ident := buildBoth(calls)
 	size := len(calls)
@@ -399,6 +473,9 @@ func c03Sequence(c *rep.Ctx, calls []addCall, withFS bool) {
 	}
 	doc := enum.SpellForest(model.Forest{mroot}, enum.Canonical)
 	ops := append([]string{}, c03Ops...)
+	if c03OnlyOps != nil {
+		ops = append([]string{}, c03OnlyOps...)
+	}
 	if len(calls) <= 4 {
 		ops = append(ops, c03Matrix...)
 	}
@@ -417,6 +494,9 @@ func c03Sequence(c *rep.Ctx, calls []addCall, withFS bool) {
 		c.Eval()
 		if pa != "" || pb != "" {
 			c.Violation("C03|panic|"+op, fmt.Sprintf("calls=%v doc=%q: root-side panic=%q md-side panic=%q", calls, doc, pa, pb), size, mk(op))
+			if strings.Contains(pa+pb, "did not return") {
+				return // a call on this tree is still stuck: nothing more can be asked of it
+			}
 			continue
 		}
 		if a != b {
@@ -429,6 +509,9 @@ func c03Sequence(c *rep.Ctx, calls []addCall, withFS bool) {
 	}
 	// deprecated aliases (a slice of the operations per sequence keeps the cost linear)
 	for _, op := range []string{"text", "json", "walk", "walkiter"} {
+		if c03OnlyOps != nil && op != c03OnlyOps[0] {
+			continue
+		}
 		a, _ := c03Op(op, root, doc, false)
 		al, pan := c03Op(op, root, doc, true)
 		ma, _ := c03Op(op, nil, doc, false)
@@ -619,6 +702,34 @@ func init() {
 				c03Sequence(c, calls, k <= 6)
 			}
 		}
+		// the size sweep (enum/size.go): every depth and width up to the bound, built by NewRoot / Add; each tree goes
+		// through text output, a walk and two further operations that rotate with the size
+		upTo, far, deepTo, deepFar := 300, 1030, 130, 260
+		if c.Thorough() {
+			upTo, far, deepTo, deepFar = 1100, 2100, 300, 520
+		}
+		c.Bound("size_sweep_width_every_integer_up_to", fmt.Sprint(upTo))
+		c.Bound("size_sweep_depth_every_integer_up_to", fmt.Sprint(deepTo))
+		c.Bound("size_sweep_depth_power_of_two_neighbours_up_to", fmt.Sprint(deepFar))
+		rot := []string{"json", "walkiter", "text-massive", "yaml", "walk-massive", "text-fmt1", "toml", "json-massive"}
+		sweep := func(s enum.SizeShape) {
+			calls := shapeCalls(s.D, s.Names)
+			if calls == nil || !c.Take() || c.Expired() {
+				return
+			}
+			c.StateN(1)
+			c.Nontrivial()
+			c.Inc("size_sweep_sequences")
+			c03OnlyOps = []string{"text", "walk", rot[s.Size%len(rot)], rot[(s.Size/len(rot)+3)%len(rot)]}
+			if strings.HasPrefix(s.Tag, "chain") || strings.HasPrefix(s.Tag, "comb") {
+				c03OnlyOps = []string{"text", append([]string{"walk"}, rot...)[s.Size%(len(rot)+1)]} // (cost grows with the cube of the depth)
+			}
+			c03Sequence(c, calls, false)
+			c03OnlyOps = nil
+		}
+		enum.DeepShapes(enum.Sizes(deepTo, deepFar), sweep)
+		enum.WideShapes(enum.Sizes(upTo, far), sweep)
+		enum.TwinShapes(sweep) // sibling names that agree on cheap fingerprints (enum/twins.go)
 		// a root whose own name is not a valid path element, with k children (around typical worker / fan-out thresholds):
 		// every validating operation must reject it exactly as the Markdown side does, also with the massive option
 		for _, k := range []int{0, 1, 3, 9, 10, 11, 16, 33} {
